@@ -5973,8 +5973,10 @@ class SSHServerConnection(SSHConnection):
         for alg in peer_host_key_algs:
             keypair = self._server_host_keys.get(alg)
             if keypair:
-                if alg != keypair.algorithm:
-                    keypair.set_sig_algorithm(alg)
+                # The key pair object is shared by all connections of a
+                # listener: always select the signature algorithm which
+                # belongs to the algorithm negotiated by this connection
+                keypair.set_sig_algorithm(alg)
 
                 self._server_host_key = keypair
                 return True
